@@ -664,3 +664,35 @@ func ruleHardBeforeSoft(r *Run, rule string) {
 	}
 	r.Check(rule, f+": error returns", r.P.Pos(fn.Pos()), n >= 4, fmt.Sprint(n))
 }
+
+// ruleUntransformedText: every call of a text parser passes the text as it was received: no strings.*
+// transformation (TrimSpace, Replace, ToLower, ...) sits between the input and the parser, so that the parser's
+// own canonical-form / exact-syntax decisions are the decisions of every entry point.
+func ruleUntransformedText(r *Run, rule string, min int, callees ...string) {
+	n := 0
+	for _, fn := range r.P.ModFns {
+		ff := r.P.Facts(fn)
+		for _, callee := range callees {
+			for _, cs := range r.CallSites(fn, callee) {
+				n++
+				t := ff.Term(cs.Common().Args[0])
+				bad := strings.Contains(t, "strings.") || strings.Contains(t, "bytes.Trim") || strings.Contains(t, "bytes.Replace")
+				if want, ok := reviewedTextTransforms[FnName(fn)+" -> "+callee]; ok && glob(want, t) {
+					bad = false
+				}
+				r.Check(rule, FnName(fn)+" hands "+callee+" the text as received", r.P.Pos(cs.Pos()), !bad, "the argument is "+trunc(t, 160)+": text the parser itself would refuse (or read differently) is rewritten before it is parsed")
+			}
+		}
+	}
+	r.Units["text parser call sites"] += n
+	if n < min {
+		r.Fail(rule, "call sites of "+strings.Join(callees, ", "), "", fmt.Sprintf("anchor-unresolved: %d call sites found, hand-confirmed minimum is %d", n, min))
+	}
+}
+
+// reviewed exceptions of ruleUntransformedText, one reason per line
+var reviewedTextTransforms = map[string]string{
+	// CSV files: the address cell of a hand-written row is trimmed of surrounding blanks before it is parsed (CLI only)
+	"cli.parseReceiversFromCSV -> cipher.DecodeBase58Address":   "strings.TrimSpace($0[i][0])",
+	"cli.parseSendAmountsFromCSV -> cipher.DecodeBase58Address": "strings.TrimSpace($0[i][0])",
+}
